@@ -256,7 +256,9 @@ example : (T.arithL none leafA a a).wf = true := by decide
 example : (T.arithR none a a leafA).wf = true := by decide
 example : (T.timeRev (some "r") leafA).wf = true := by decide
 example : (T.abstr "abs" [("defined_channels", a), ("integral", a)]).wf = true := by decide
-/-- outside the constructors' range: an anonymous mapping directly inside a mapping (it is flattened on construction) -/
+/-- outside the constructors' range: an anonymous mapping without constraints directly inside a mapping (it is merged on
+construction); one that carries parameter constraints is kept -/
 example : (T.mapping none (T.mapping none leafA [] [] [] []) [] [] [] []).wf = false := by decide
+example : (T.mapping none (T.mapping none leafA [] [] [] [a]) [] [] [] []).wf = true := by decide
 
 end QP.Props.C10
